@@ -394,6 +394,27 @@ def run(ctx, prog, only=None):
         return None
     A.require('check_id_constraints/no-duplicate-embedded-no-alias-no-service-clash', paths, r_gate, replay={'scenario': 'document_ops', 'cex': {'only': '[gate]'}})
 
+    # what the loops take out of the collections are the entries' *whole* ids (the mapping closures of the iterators are opaque to the
+    # audit above): each closure returns `<entry>.id()` - not a part of it, under which entries of different DIDs would collide
+    cls = [g for g in prog.funcs if re.search(r'check_id_constraints::\{closure#\d+\}$', g.name) and
+           re.search(r'MethodRef|VerificationMethod|Service', ' '.join(t for _, t in g.args[1:]))]
+    if len(cls) < 3:
+        raise Refuse('the id-projecting closures of check_id_constraints were not found (%d)' % len(cls))
+    for g in cls:
+        cpaths, cex = A.paths(g)
+        kind = re.search(r'(MethodRef|VerificationMethod|Service)', ' '.join(t for _, t in g.args[1:])).group(1)
+
+        def r_idc(p, kind=kind):
+            if p.kind != 'return':
+                return 'panic ' + p.msg
+            t = p.term()
+            if isinstance(p.val, VAgg) and p.val.fields:
+                t = p.term(p.val.fields[0])
+            t = strip(t)
+            ok = isinstance(t, tuple) and t[0] == 'app' and re.search(r'(MethodRef|VerificationMethod|Service)::id$', t[1]) and len(t[2]) == 1 and strip(t[2][0])[0] == 'leaf'
+            return None if ok else 'the %s entries are identified by %s, not by their whole id' % (kind, term_str(t)[:80])
+        A.require('check_id_constraints/%s-entries-identified-by-their-whole-id' % kind, cpaths, r_idc, replay={'scenario': 'document_ops', 'cex': {'only': '[gate]'}})
+
 
 def main(ctx):
     prog, info = load(CRATES, src_only=SRC)
